@@ -43,8 +43,29 @@ fn oracle(m: &RLib, ctx: &mut Ctx) -> Result<(), String> {
             let msg = format!("{:?}", e);
             let nonrect_named = m.cells.iter().any(|c| c.shapes.iter().any(|s| s.net.is_some() && !s.geom.is_rectilinear()));
             if msg.contains("No valid label location") && nonrect_named {
-                ctx.refused("export refused: no label location for a non-rectilinear polygon (documented)");
-                return Ok(());
+                // The documented search: the centre of the bounding box, then the four unit neighbours of the
+                // first vertex. The refusal is accepted only if, for some named polygon, none of those lies in it.
+                let hopeless = m.cells.iter().any(|c| {
+                    c.shapes.iter().any(|s| match (&s.net, &s.geom) {
+                        (Some(_), RGeom::Poly(v)) if !s.geom.is_rectilinear() => {
+                            let (x0, x1) = (v.iter().map(|p| p.0).min().unwrap(), v.iter().map(|p| p.0).max().unwrap());
+                            let (y0, y1) = (v.iter().map(|p| p.1).min().unwrap(), v.iter().map(|p| p.1).max().unwrap());
+                            let mut cands = vec![(v[0].0, v[0].1 - 1), (v[0].0 - 1, v[0].1), (v[0].0, v[0].1 + 1), (v[0].0 + 1, v[0].1)];
+                            if (x0 + x1) % 2 == 0 && (y0 + y1) % 2 == 0 {
+                                cands.push(((x0 + x1) / 2, (y0 + y1) / 2));
+                            } else {
+                                return true; // half-integer centre: which way it is rounded is not ours to say
+                            }
+                            !cands.iter().any(|p| s.geom.contains(*p) == Some(true))
+                        }
+                        _ => false,
+                    })
+                });
+                if hopeless {
+                    ctx.refused("export refused: no label location for a non-rectilinear polygon (documented)");
+                    return Ok(());
+                }
+                return Err(format!("export refused ({}) although, for every named polygon, the centre of its bounding box or a unit neighbour of its first vertex lies inside it", crate::gen::gds::first_diff("", &msg)));
             }
             return Err(format!("export to GDSII failed: {}", msg));
         }
